@@ -249,6 +249,10 @@ pub fn c06_oracle(case: &ConvCase, exp: &Expected, obs: &Observation) -> Verdict
     if let Some(v) = engine_trouble(obs) {
         return v;
     }
+    if let Some(s) = &obs.stall {
+        let fin = case.conv.reqs.iter().enumerate().map(|(i, _)| match case.prog(i).finish { Finish::Drop | Finish::Panic => "dropped", _ => "answered" }).next().unwrap_or("answered");
+        return crate::runner::fail(format!("C06/{}-request-waits-for-unsent-body/stall", fin), s.clone());
+    }
     tri!(prefix("C06", comp_delivery_sequence(case, exp, obs)));
     let view = client_view(&obs.client, exp);
     tri!(prefix("C06", comp_client_stream(exp, obs, &view, exp.msgs.len(), false)));
